@@ -157,6 +157,18 @@ fn origins(tier: &str, rng: &mut Rng) -> Vec<Origin> {
 			out.push(Origin { info: info.clone(), bytes: info.pkcs8.clone(), fmt: "pkcs8v1".into(), label: "PRIVATE KEY" });
 			if kt.starts_with('p') {
 				let sec1 = pkey.ec_key().unwrap().private_key_to_der().unwrap();
+				// PKCS#8 whose inner ECPrivateKey repeats the curve in its own parameters [0] field (RFC 5915 allows it; OpenSSL's
+				// SEC1 form has it): a PrivateKeyInfo a back end would not write itself, to be kept byte for byte
+				{
+					use crate::der::{enc_oid, enc_seq, enc_tlv, enc_uint};
+					let curve = match *kt {
+						"p256" => "1.2.840.10045.3.1.7",
+						"p384" => "1.3.132.0.34",
+						_ => "1.3.132.0.35",
+					};
+					let p8 = enc_seq(&[enc_uint(&[0]), enc_seq(&[enc_oid("1.2.840.10045.2.1"), enc_oid(curve)]), enc_tlv(0x04, &sec1)]);
+					out.push(Origin { info: info.clone(), bytes: p8, fmt: "pkcs8v1-inner-params".into(), label: "PRIVATE KEY" });
+				}
 				out.push(Origin { info: info.clone(), bytes: sec1, fmt: "sec1".into(), label: "EC PRIVATE KEY" });
 			}
 			if kt.starts_with("rsa") {
@@ -354,7 +366,10 @@ pub fn run_keys(out_path: &str, tier: &str) {
 		}
 		// lookups that must find nothing: the empty OID, every proper prefix of a registered OID, every registered OID with one
 		// more arc, a registered OID with its last arc changed; plus the SPKI-side OIDs (rsaEncryption, id-ecPublicKey)
-		let mut strangers: Vec<Vec<u64>> = vec![vec![], vec![1, 2, 840, 113549, 1, 1, 1], vec![1, 2, 840, 10045, 2, 1]];
+		let mut strangers: Vec<Vec<u64>> = vec![vec![], vec![1, 2, 840, 113549, 1, 1, 1], vec![1, 2, 840, 10045, 2, 1],
+			// signature algorithms that exist and that rcgen does not offer: RSASSA-PSS, SHA-1 / SHA-224 with RSA and ECDSA, Ed448, DSA
+			vec![1, 2, 840, 113549, 1, 1, 10], vec![1, 2, 840, 113549, 1, 1, 5], vec![1, 2, 840, 113549, 1, 1, 14], vec![1, 2, 840, 10045, 4, 1], vec![1, 2, 840, 10045, 4, 3, 1],
+			vec![1, 3, 101, 113], vec![2, 16, 840, 1, 101, 3, 4, 3, 2]];
 		for (n, _) in &algs {
 			let r = registered(n);
 			for l in 1..r.len() {
